@@ -28,6 +28,17 @@ func init() {
 		n := 4 + r.Intn(9)
 		connected := map[int]bool{}
 		canSetExpiry := map[int]bool{} // DISCONNECT may carry an expiry only if CONNECT carried a non-zero one (else: protocol error by the client)
+		if i%16 == 15 {
+			v5mask |= 1
+			takeoverThenWait(r, c, 0)
+			for k := len(c.Ops) - 1; k >= 0; k-- {
+				if c.Ops[k].ID == 0 && (c.Ops[k].Op == "connect" || c.Ops[k].Op == "disc") {
+					connected[0] = c.Ops[k].Op == "connect"
+					break
+				}
+			}
+			canSetExpiry[0] = true
+		}
 		for k := 0; k < n; k++ {
 			id := r.Intn(2)
 			x := r.Intn(100)
@@ -37,8 +48,10 @@ func init() {
 				c.Ops = append(c.Ops, op)
 				connected[id] = true
 				canSetExpiry[id] = op.V5 && op.Expiry > 0
+			case connected[id] && x < 21:
+				c.Ops = append(c.Ops, sessOp{Op: "sub", ID: id, T: r.Intn(2), NL: r.Chance(40)})
 			case connected[id] && x < 25:
-				c.Ops = append(c.Ops, sessOp{Op: "sub", ID: id, T: r.Intn(2)})
+				c.Ops = append(c.Ops, sessOp{Op: "selfpub", ID: id, T: r.Intn(2)})
 			case x < 50:
 				c.Ops = append(c.Ops, sessOp{Op: "pub", T: r.Intn(2)})
 			case connected[id] && x < 70:
@@ -121,8 +134,10 @@ func genPopulation(r *Rng, c *sessCase, v5mask int, wills bool, timed bool) {
 			c.Ops = append(c.Ops, op)
 			connected[id] = true
 			canSetExpiry[id] = op.V5 && op.Expiry > 0
+		case connected[id] && x < 30:
+			c.Ops = append(c.Ops, sessOp{Op: "sub", ID: id, T: r.Intn(2), NL: r.Chance(40)})
 		case connected[id] && x < 35:
-			c.Ops = append(c.Ops, sessOp{Op: "sub", ID: id, T: r.Intn(2)})
+			c.Ops = append(c.Ops, sessOp{Op: "selfpub", ID: id, T: r.Intn(2)})
 		case x < 47:
 			c.Ops = append(c.Ops, sessOp{Op: "pub", T: r.Intn(2)})
 		case x < 55:
@@ -184,6 +199,9 @@ func init() {
 				c.Ops = append(c.Ops, op)
 				if r.Chance(60) {
 					c.Ops = append(c.Ops, sessOp{Op: "sub", ID: op.ID, T: r.Intn(2)})
+				} else {
+					// its restored subscriptions (No Local included) apply to its own publishes
+					c.Ops = append(c.Ops, sessOp{Op: "selfpub", ID: op.ID, T: 0}, sessOp{Op: "selfpub", ID: op.ID, T: 1})
 				}
 			default:
 				if i%5 == 4 {
@@ -208,7 +226,20 @@ func init() {
 		canSetExpiry := map[int]bool{}
 		ended := map[int]bool{}
 		races := 0
-		if timed {
+		if timed && c.Preempt && i%8 == 7 {
+			v5mask |= 1
+			takeoverThenWait(r, c, 0)
+			connected[0], ended[0], canSetExpiry[0] = true, false, true
+			if last := c.Ops[len(c.Ops)-1]; last.Op == "pub" && c.Ops[len(c.Ops)-2].Op == "disc" {
+				connected[0] = false
+			}
+			for k := len(c.Ops) - 1; k >= 0; k-- {
+				if c.Ops[k].ID == 0 && (c.Ops[k].Op == "connect" || c.Ops[k].Op == "disc") {
+					connected[0] = c.Ops[k].Op == "connect"
+					break
+				}
+			}
+		} else if timed {
 			// a CONNECT aimed at the moment a will-delay / session-expiry timer of its identifier fires
 			v5mask |= 1
 			op := genConnect(r, 0, true, v5mask)
@@ -286,4 +317,25 @@ func init() {
 		c.Ops = append(c.Ops, sessOp{Op: "pub", T: 0}, sessOp{Op: "pub", T: 1})
 		return c
 	}}
+}
+
+// takeoverThenWait: a v5 session with a finite expiry is taken over; the new connection stays longer than the
+// interval of the old one (no timer of the taken-over connection may act on the live session), then the
+// identifier is used again
+func takeoverThenWait(r *Rng, c *sessCase, id int) {
+	e1 := []int64{1, 2}[r.Intn(2)]
+	first := sessOp{Op: "connect", ID: id, V5: true, Expiry: e1, WillDelay: -2}
+	if r.Chance(40) {
+		first.WillDelay = []int{0, 1, 2}[r.Intn(3)]
+	}
+	second := sessOp{Op: "connect", ID: id, V5: true, Expiry: []int64{1, 2, 4294967295}[r.Intn(3)], WillDelay: -2}
+	c.Ops = append(c.Ops, first, sessOp{Op: "sub", ID: id, T: 0}, second, sessOp{Op: "sub", ID: id, T: 1},
+		sessOp{Op: "wait", Ms: 2500}, sessOp{Op: "pub", T: 0}, sessOp{Op: "pub", T: 1})
+	switch r.Intn(3) {
+	case 0:
+		c.Ops = append(c.Ops, sessOp{Op: "connect", ID: id, V5: true, Expiry: 2, WillDelay: -2}, sessOp{Op: "pub", T: 1})
+	case 1:
+		c.Ops = append(c.Ops, sessOp{Op: "disc", ID: id, Expiry: -1}, sessOp{Op: "pub", T: 0},
+			sessOp{Op: "connect", ID: id, V5: true, Expiry: 2, WillDelay: -2})
+	}
 }
